@@ -18,7 +18,7 @@ P = 'verifharness/vf.'
 
 
 class TRec:
-    __slots__ = ('tid', 'frames', 'done', 'vc', 'at_sched', 'started')
+    __slots__ = ('tid', 'frames', 'done', 'vc', 'at_sched', 'started', 'blocked_on')
 
     def __init__(self, tid, frames, vc):
         self.tid = tid
@@ -27,12 +27,14 @@ class TRec:
         self.vc = vc
         self.at_sched = False
         self.started = False
+        self.blocked_on = None   # key of a WaitGroup this goroutine waits for
 
     def copy(self):
         r = TRec(self.tid, self.frames, dict(self.vc))
         r.done = self.done
         r.at_sched = self.at_sched
         r.started = self.started
+        r.blocked_on = self.blocked_on
         return r
 
 
@@ -47,9 +49,11 @@ class Par:
         self.ret_ins = None
         self.item_clock = {}
         self.schedule = []
+        self.implicit = False    # created by a go statement (the spawner keeps running as thread 0)
 
     def copy(self):
         p = Par()
+        p.implicit = self.implicit
         p.threads = [t.copy() for t in self.threads]
         p.main_frames = self.main_frames
         p.main_vc = dict(self.main_vc) if self.main_vc else None
@@ -72,6 +76,14 @@ def install(eng):
     eng.sync_acquire = lambda st, key: sync_acquire(eng, st, key)
     eng.sync_release = lambda st, key: sync_release(eng, st, key)
     eng.log_access = lambda st, ptr, write: log_access(eng, st, ptr, write)
+    eng.op_Go = lambda st, fr, ins: op_go(eng, st, fr, ins)
+    eng.stubs = dict(eng.stubs)
+    eng.stubs['(*sync.WaitGroup).Add'] = wg_add
+    eng.stubs['(*sync.WaitGroup).Done'] = wg_done
+    eng.stubs['(*sync.WaitGroup).Wait'] = wg_wait
+    eng.stubs['runtime.GOMAXPROCS'] = lambda e, st, fr, fn, args, ins: _set_reg(st, ins, e.opts.get('gomaxprocs', 4))
+    eng.stubs['runtime.NumCPU'] = lambda e, st, fr, fn, args, ins: _set_reg(st, ins, e.opts.get('gomaxprocs', 4))
+    eng.stubs['runtime.Gosched'] = lambda e, st, fr, fn, args, ins: sched_point(e, st, 'Gosched')
 
 
 def log_access(eng, st, ptr, write):
@@ -118,15 +130,123 @@ def i_par(eng, st, fr, fn, args, ins):
     schedule(eng, st)
 
 
-def runnable(par):
-    return [i for i, t in enumerate(par.threads) if not t.done]
+def _set_reg(st, ins, v):
+    if ins.get('reg'):
+        st.frames[-1].regs[ins['reg']] = v
+
+
+def _wg_key(p):
+    return ('wg', p.obj, tuple(x if isinstance(x, int) else ('s', x.get_id()) for x in p.path))
+
+
+def _wg_count(st, key):
+    return st.ghost.get('atomics', {}).get(key, 0)
+
+
+def runnable(par, st=None):
+    out = []
+    for i, t in enumerate(par.threads):
+        if t.done:
+            continue
+        if t.blocked_on is not None and st is not None and _wg_count(st, t.blocked_on) > 0:
+            continue
+        out.append(i)
+    return out
+
+
+def op_go(eng, st, fr, ins):
+    """go f(args): library-internal goroutine. The spawner keeps running (as thread 0 of an implicit context)."""
+    if 'invoke' in ins:
+        raise Unsupported('go on an interface method')
+    fv = eng.val(st, fr, ins['fnv'])
+    args = [eng.val(st, fr, a) for a in ins['args']]
+    if not isinstance(fv, Closure):
+        raise Unsupported('go on a non-function value')
+    fn = eng.funcs[fv.fid]
+    if fn['external']:
+        raise Unsupported('go on external function ' + fn['name'])
+    from .engine import Frame
+    par = st.ghost.get('par')
+    if par is None:
+        par = Par()
+        par.implicit = True
+        root = TRec(0, st.frames, {0: 1})
+        root.started = True
+        par.threads.append(root)
+        par.cur = 0
+        st.ghost['par'] = par
+        st.ghost['access'] = []
+        st.ghost['access_keys'] = set()
+        st.ghost.setdefault('owners', {})
+        st.ghost['cur_thread'] = 0
+    cur = par.threads[par.cur]
+    tid = max(t.tid for t in par.threads) + 1
+    vc = dict(cur.vc)
+    vc[tid] = 1
+    cur.vc[cur.tid] = cur.vc.get(cur.tid, 0) + 1     # fork edge
+    par.threads.append(TRec(tid, [Frame(fn, args, fv.bindings)], vc))
+    st.covers.add('@go')
+    if len(par.threads) > eng.opts.get('max_goroutines', 8):
+        raise Unsupported('more than %d goroutines' % eng.opts.get('max_goroutines', 8))
+
+
+def wg_add(eng, st, fr, fn, args, ins):
+    p, n = args
+    if is_sym(n):
+        raise Unsupported('WaitGroup.Add of a symbolic count')
+    key = _wg_key(p)
+    d = dict(st.ghost.get('atomics', {}))
+    d[key] = d.get(key, 0) + n
+    if d[key] < 0:
+        eng.do_panic(st, 'sync: negative WaitGroup counter')
+    st.ghost['atomics'] = d
+    if n < 0:
+        sync_release(eng, st, key)
+
+
+def wg_done(eng, st, fr, fn, args, ins):
+    p = args[0]
+    # (no scheduling point of its own: Done is atomic and what follows it in a goroutine is its own exit)
+    key = _wg_key(p)
+    d = dict(st.ghost.get('atomics', {}))
+    d[key] = d.get(key, 0) - 1
+    if d[key] < 0:
+        eng.do_panic(st, 'sync: negative WaitGroup counter')
+    st.ghost['atomics'] = d
+    sync_release(eng, st, key)
+
+
+def wg_wait(eng, st, fr, fn, args, ins):
+    p = args[0]
+    key = _wg_key(p)
+    par = st.ghost.get('par')
+    if par is None or par.cur is None:
+        if _wg_count(st, key) > 0:
+            raise PathEnd('pruned')   # nobody can ever call Done
+        return
+    if _wg_count(st, key) > 0:
+        # block: rewind to the call, mark blocked, let the others run
+        f = st.frames[-1]
+        f.ip -= 1
+        st.ninstr -= 1
+        t = par.threads[par.cur]
+        t.blocked_on = key
+        st.ghost['resumed'] = False
+        pause_current(eng, st, False)
+        schedule(eng, st)
+        return
+    par.threads[par.cur].blocked_on = None
+    sync_acquire(eng, st, key)
 
 
 def schedule(eng, st):
     """fork over which runnable thread moves next; the current state object is abandoned"""
     par = st.ghost['par']
-    rs = runnable(par)
+    rs = runnable(par, st)
     if not rs:
+        if par.implicit or any(not t.done for t in par.threads):
+            # every remaining goroutine waits for something that cannot happen any more on this schedule
+            raise PathEnd('deadlock' if any(not t.done for t in par.threads) else 'pruned')
         join(eng, st)
         return
     fixed = eng.opts.get('schedule')
@@ -180,6 +300,11 @@ def on_empty_frames(eng, st):
         return False
     if par.cur is not None:
         t = par.threads[par.cur]
+        if par.implicit and t.tid == 0:
+            # the spawner (the harness itself) finished: the program ends here
+            check_races(eng, st)
+            st.ghost['par'] = None
+            return False
         t.done = True
         t.frames = []
         par.cur = None
